@@ -77,7 +77,13 @@ def main():
                         replay = {k: (v if len(json.dumps(v, default=str)) < 600 else str(v)[:600]) for k, v in d.items() if k not in ('analytic', 'numeric', 'make_log_tail')}
                     except Exception as ex:  # noqa
                         replay = {'error': str(ex)}
-            checks[p] = {'rc': rcc, 'lines': [l[:300] for l in lines], 'detected': rcc == 1 and any(l.startswith('VIOLATION') for l in lines),
+            broken = None
+            try:
+                evd = json.load(open(os.path.join(scratch, 'evidence', p + '.json')))
+                broken = [o['name'][:160] for o in evd['coverage'].get('obligation_list', []) if not o['ok']]
+            except Exception as ex:  # noqa
+                broken = ['(evidence not readable: %s)' % ex]
+            checks[p] = {'broken_obligations': broken, 'rc': rcc, 'lines': [l[:300] for l in lines], 'detected': rcc == 1 and any(l.startswith('VIOLATION') for l in lines),
                          'with_failing_input': any(l.startswith('VIOLATION') and 'no-failing-input-found' not in l for l in lines),
                          'wall_s': round(time.time() - t0, 1), 'replay': replay}
         res['checks'] = checks
@@ -94,6 +100,13 @@ def main():
             meta = json.load(open(os.path.join(src, 'meta.json')))
         except Exception:  # noqa
             pass
+        if skip_tests:
+            try:
+                prev = json.load(open(os.path.join(dst, 'meta.json')))['confirmed']['test_suite']
+                if prev.get('rc') is not None:
+                    res['test_suite'] = dict(prev, note='from the previous confirmation run of the same patch')
+            except Exception:  # noqa
+                pass
         meta.update({'property': pid, 'confirmed': res})
         json.dump(meta, open(os.path.join(dst, 'meta.json'), 'w'), indent=1, default=str)
     print(json.dumps({'name': name, 'valid_seed': res.get('valid_seed'), 'demo_without': res.get('demo_without_patch', {}).get('rc'),
